@@ -30,6 +30,11 @@ impl Display for Value {
                 value.replace('\\', "\\\\").replace('"', "\\\"")
             ),
             Value::Int(value) => write!(formatter, "i{value}"),
+            // There is no literal for infinity, "finf" would be read back as an identifier. Write
+            // an overflowing literal instead, this is read back as the same infinity
+            Value::Float(value) if value.is_infinite() => {
+                write!(formatter, "f{}1e999", if *value < 0.0 { "-" } else { "" })
+            }
             Value::Float(value) => write!(formatter, "f{value}"),
             Value::Decimal(value) => write!(formatter, "d{value}"),
             Value::Bool(value) => write!(formatter, "{value}"),
